@@ -886,6 +886,153 @@ static void run_family(const std::string& name, const std::string& desc, const s
     R->bound("outline." + name, desc + fmt("; %zu spines x 3 widths x 4 offset configurations x bends {%s} x 4 joins x 5 ends; sample spacing %.3g%s", spines.size(), bl.c_str(), opt.h, opt.do_c ? "; PATH records (gds+oas) for joins natural/miter" : ""), ok, (int64_t)spines.size() * 240 * (int64_t)bends.size());
 }
 
+// ----------------------------------------------------------------------- long simple paths (multi-record XY lists)
+// GDSII XY records hold at most 8190 points, so FlexPath::to_gds splits the centre line of a long simple path
+// over several records.  Members: zig-zag spine (0,0),(4,4),(8,0),(12,4),... with n points built by init +
+// segment(array), width 1, one element (offset 0) or two (+1.5/-1.5), end flush or extended(1,0.5).  The re-read
+// record must reproduce the oracle's centre line point by point (grid tolerance), its width and end code, and,
+// in windows around the start, every 8190-point boundary, the middle and the end, denote the region the source
+// to_polygons covers (same record oracle as above on the window's sub-polyline; samples restricted to the part
+// of the window that the rest of the path cannot reach).
+static std::vector<V> zigzag(int n) {
+    std::vector<V> sp;
+    for (int k = 0; k < n; k++) sp.push_back(V{4.0 * k, (k & 1) ? 4.0 : 0.0});
+    return sp;
+}
+static void run_long_member(int n, int ocfg, int end, bool verbose) {
+    const std::vector<V> sp = zigzag(n);
+    const int nel = group_nel(ocfg);
+    auto mjson = [&]() {
+        return jobj({{"spine", jstr(fmt("zig-zag (4k, 4*(k odd)) k=0..%d", n - 1))}, {"points", jint(n)}, {"width", jstr("1")}, {"offsets", jstr(OFF_NAME[ocfg])}, {"end", jstr(END_NAME[end])}, {"simple_path", jbool(true)}});
+    };
+    std::string replay = fmt("sub=pathlong n=%d oc=%d end=%d", n, ocfg, end);
+    // oracle centre lines
+    std::vector<c07::Oracle> orc(nel);
+    for (int el = 0; el < nel; el++) {
+        c07::ElementInput in;
+        in.spine = sp;
+        in.hw.assign(n, 0.5);
+        in.off.assign(n, group_off(ocfg, el));
+        in.ends = end_variants(0.5, 0.5);
+        orc[el] = c07::build(in);
+        if (orc[el].status != c07::OK) { R->internal_error("long zig-zag member rejected by the non-degeneracy predicate: " + replay); return; }
+    }
+    // source polygons
+    std::vector<std::vector<V>> spoly(nel);
+    {
+        FlexPath* fp = make_path(sp, 0, ocfg, 0, c07::J_NATURAL, end, true);
+        Array<Polygon*> res = {};
+        ErrorCode ec = fp->to_polygons(false, 0, res);
+        bool ok = ec == ErrorCode::NoError && res.count == (uint64_t)nel;
+        for (int el = 0; ok && el < nel; el++)
+            for (uint64_t k = 0; k < res[el]->point_array.count; k++) spoly[el].push_back(V{res[el]->point_array[k].x, res[el]->point_array[k].y});
+        for (uint64_t k = 0; k < res.count; k++) { res[k]->clear(); free_allocation(res[k]); }
+        res.clear();
+        free_path(fp);
+        if (!ok) { R->violation("path.gds", "long:no-polygon", {{"points", jint(n)}}, mjson(), "to_polygons failed on the long path", replay); return; }
+    }
+    for (int fmt_i = 0; fmt_i < 2; fmt_i++) {
+        const bool oas = fmt_i == 1;
+        const std::string sub = oas ? "path.oas" : "path.gds";
+        auto tags = [&](int el, const char* what, int64_t idx) {
+            JFields t = {{"format", jstr(oas ? "oas" : "gds")}, {"long", jbool(true)}, {"points", jint(n)}, {"elements", jint(nel)}, {"element", jint(el)}, {"end", jstr(END_NAME[end])},
+                         {"what", jstr(what)}, {"xy_record", jint(idx < 0 ? -1 : idx / 8190)}};
+            return t;
+        };
+        std::vector<FlexPath*> paths;
+        paths.push_back(make_path(sp, 0, ocfg, 0, c07::J_NATURAL, end, true));
+        std::string file = R->scratch + fmt("/l%d.%s", (int)getpid(), oas ? "oas" : "gds");
+        if (!write_library(paths, file, oas)) { R->violation(sub, "long:write-error", tags(0, "write", -1), mjson(), "writer returned an error", replay); continue; }
+        std::vector<PathRecord> recs;
+        std::string err;
+        bool ok = decode_paths(file, oas, recs, err);
+        unlink(file.c_str());
+        if (!ok || recs.size() != (size_t)nel) { R->violation(sub, "long:record-count", tags(0, "count", -1), mjson(), fmt("expected %d PATH records, re-read %zu (%s)", nel, recs.size(), err.c_str()), replay); continue; }
+        for (int el = 0; el < nel; el++) {
+            const PathRecord& r = recs[el];
+            const c07::Oracle& o = orc[el];
+            R->count("cases");
+            R->count("nontrivial");
+            R->count("path_long_records_checked");
+            if (n > 8190) R->count("path_long_records_spanning_several_xy_records");
+            if (verbose) fprintf(stderr, " %s element %d: %zu points re-read (expected %d), hw %.4f end %s ext %.3f/%.3f\n", sub.c_str(), el, r.pts.size(), n, r.hw, r.end_name.c_str(), r.ext_s, r.ext_e);
+            if (r.pts.size() != (size_t)n) {
+                R->violation(sub, "long:point-count", tags(el, "point-count", -1), mjson(), fmt("PATH record re-read with %zu centre-line points, element centre line has %d", r.pts.size(), n), replay);
+                continue;
+            }
+            int64_t first_bad = -1, nbad = 0;
+            double worst = 0;
+            for (int i = 0; i < n; i++) {
+                double d = c07::norm(r.pts[i] - o.C[i]);
+                if (d > 1.5 * GRID) { if (first_bad < 0) first_bad = i; nbad++; worst = std::max(worst, d); }
+            }
+            R->count("path_long_points_compared", n);
+            if (nbad) {
+                R->violation(sub, "long:point", tags(el, "point", first_bad), mjson(),
+                             fmt("%lld of %d re-read centre-line points differ from the element centre line; first at index %lld: record (%.4f,%.4f), expected (%.4f,%.4f); worst distance %.4f", (long long)nbad, n, (long long)first_bad,
+                                 r.pts[first_bad].x, r.pts[first_bad].y, o.C[first_bad].x, o.C[first_bad].y, worst), replay);
+                continue;
+            }
+            bool end_ok = fabs(r.hw - 0.5) <= GRID && (end == 0 ? (!r.round && fabs(r.ext_s) <= GRID && fabs(r.ext_e) <= GRID) : (!r.round && fabs(r.ext_s - 1) <= GRID && fabs(r.ext_e - 0.5) <= GRID));
+            if (!end_ok) { R->violation(sub, "long:width-or-end", tags(el, "width-or-end", -1), mjson(), fmt("record hw %.4f end %s extensions %.4f/%.4f", r.hw, r.end_name.c_str(), r.ext_s, r.ext_e), replay); continue; }
+            // --- region in windows (coarse grid h = 0.5)
+            std::vector<int> centres = {0, n / 2, n - 1};
+            for (int b = 8190; b < n; b += 8190) centres.push_back(b);
+            for (int c : centres) {
+                int a = std::max(0, c - 6), b = std::min(n - 1, c + 6);
+                c07::ElementInput rin;
+                rin.raw = true;
+                for (int i = a; i <= b; i++) rin.spine.push_back(r.pts[i]);
+                rin.hw.assign(rin.spine.size(), r.hw);
+                rin.off.assign(rin.spine.size(), 0.0);
+                c07::EndVar ev{false, false, 0, 0};
+                if (a == 0) { ev.s_round = r.round; ev.s_ext = r.round ? 0 : r.ext_s; }
+                if (b == n - 1) { ev.e_round = r.round; ev.e_ext = r.round ? 0 : r.ext_e; }
+                rin.ends.assign(1, ev);
+                c07::Oracle ro = c07::build(rin);
+                // samples: x between the second and the second-to-last window point (true ends: beyond the cap)
+                double xlo = a == 0 ? ro.bx0 : r.pts[a + 2].x, xhi = b == n - 1 ? ro.bx1 : r.pts[b - 2].x;
+                Grid g = make_grid(xlo + (a == 0 ? 0 : 2), ro.by0, xhi - (b == n - 1 ? 0 : 2), ro.by1, 0.5);
+                std::vector<uint8_t> cov;
+                coverage(spoly[el], g, cov);
+                int bad_in = 0, bad_out = 0;
+                V f{0, 0};
+                int64_t nin = 0, nout = 0;
+                for (int j = 0; j < g.ny; j++)
+                    for (int i = 0; i < g.nx; i++) {
+                        V q = g.at(i, j);
+                        c07::Cls cl = c07::classify(ro, q, G_REC, 1);
+                        bool mc = cl.mc & 1, mn = (cl.farE & 1) && (cl.farJ >> c07::J_MITER & 1);
+                        bool cv = cov[(size_t)j * g.nx + i];
+                        if (mc) { nin++; if (!cv) { if (!bad_in && !bad_out) f = q; bad_in++; } }
+                        else if (mn) { nout++; if (cv) { if (!bad_in && !bad_out) f = q; bad_out++; } }
+                    }
+                R->count("path_long_window_samples_inside", nin);
+                R->count("path_long_window_samples_outside", nout);
+                R->count("path_long_windows");
+                if (bad_in || bad_out)
+                    R->violation(sub, "long:region", tags(el, "region", c), mjson(),
+                                 fmt("window around point %d: %d sample(s) inside the record's region not covered by the source polygon, %d covered outside it; first (%.4f,%.4f)", c, bad_in, bad_out, f.x, f.y), replay);
+            }
+        }
+    }
+}
+static void run_long(bool thorough) {
+    struct LM { int n, oc, end; };
+    std::vector<LM> ms;
+    std::vector<int> ns = {8189, 8190, 8191, 9001};
+    if (thorough) { ns.push_back(16381); ns.push_back(20000); }
+    for (int n : ns) for (int oc : {0, 3}) for (int e : {0, 2}) ms.push_back({n, oc, e});
+    auto body = [&](int64_t i) { run_long_member(ms[i].n, ms[i].oc, ms[i].end, false); };
+    auto describe = [&](int64_t i) { return jobj({{"long_zigzag_points", jint(ms[i].n)}, {"offsets", jstr(OFF_NAME[ms[i].oc])}, {"end", jstr(END_NAME[ms[i].end])}}); };
+    auto replay_of = [&](int64_t i) { return fmt("sub=pathlong n=%d oc=%d end=%d", ms[i].n, ms[i].oc, ms[i].end); };
+    bool ok = parallel_for(*R, (int64_t)ms.size(), body, describe, replay_of, PFOptions{120, "path.gds", true});
+    std::string nl;
+    for (int n : ns) nl += fmt("%s%d", nl.empty() ? "" : ", ", n);
+    R->sample("path.gds", jobj({{"long_zigzag_points", jint(ns.back())}, {"offsets", jstr(OFF_NAME[3])}, {"end", jstr(END_NAME[2])}}));
+    R->bound("path.long", fmt("simple zig-zag paths with {%s} centre-line points x {one element, two elements +1.5/-1.5} x end {flush, extended(1,0.5)} x {gds, oas}: point-by-point centre line, width/end code, region in windows (start, middle, end, every 8190-point boundary; spacing 0.5)", nl.c_str()), ok, (int64_t)ms.size() * 2);
+}
+
 // probe for the element_center index slip (path_half_widths[2*1] instead of [2*i]): tapered simple paths,
 // 4-point spines, offset 0, bend radius 0.75 (between hw[2]=2/3 and hw[1]=5/6).  Observation only.
 static void run_probe(const std::vector<std::vector<V>>& spines) {
@@ -924,6 +1071,8 @@ int main(int argc, char** argv) {
             BookSys s(nelem, book_alphabet_of(tag), sub);
             s.printable = true;
             replay_bfs(s);
+        } else if (sub == "pathlong") {
+            run_long_member(atoi(run.rarg("n").c_str()), atoi(run.rarg("oc").c_str()), atoi(run.rarg("end").c_str()), true);
         } else {
             std::vector<V> sp = parse_pts(run.rarg("pts"));
             GroupOpts opt;
@@ -961,6 +1110,7 @@ int main(int argc, char** argv) {
     GroupOpts opt;
     opt.do_c = !getenv("C07_NOC");
     run_family("2pt", "every 2-point polyline of the 5x5 lattice scaled by 4, up to translation", s2, opt, 60);
+    if (opt.do_c && !getenv("C07_FAM")) run_long(T);
     if (!T) {
         enum_spines(3, vec_set(1), s3a);
         run_family("3pt.dir16", "3-point polylines whose two steps are taken from the 16 shortest lattice vectors (8 directions and the arctan(1/2) family)" + tail, s3a, opt, 60);
